@@ -357,7 +357,7 @@ func init() {
 	Registry["C06"] = func(c *Ctx) {
 		run := c.Run
 		run.Explanation = "Sibling agreement (E-SIB, E-DT, E-CONST, E-RANGE, E-GVN): (1) the exported objects, method sets and signatures of every public package are identical in all analysed build configurations; (2) every function whose defining file differs between configurations (64-bit vs 32-bit limbs, assembly-backed vs portable, vector vs serial) has the same decision signature — the same conditions on its parameters leading to the same outcome class (nil / error / panic / which parameter is returned / boolean) and the same set of written parameters; (3) vector routines are reached only under the CPU-feature guard and each is paired with a generic twin of equal skeleton; Add/Sub duality; masked constant-time scans; (4) limb-wise operations are uniform over limbs in each radix; (5) every constant denotes the same mathematical value in both radices (math/big oracle); (6) no limb-level primitive wraps a machine word in either portable radix (interval analysis); (7) the Go Keccak-f[1600] computes the same canonical expressions as its sibling in x/crypto; (8) in each radix the byte<->limb conversions of field elements and scalars are the SAME affine maps of the input bits (E-LIN: value identities, canonical ToBytes quotient)."
-		run.NotDecided = []string{"byte-identical results of the arithmetic on every input (functional equivalence of multiplication/reduction across radices and of the assembly with the Go code)", "run-time CPU dispatch (GODEBUG=cpu.avx2=off) beyond the dispatch/twin rules", "the amd64 Keccak assembly"}
+		run.NotDecided = []string{"byte-identical results on every input: the Go multiplication/reduction of BOTH radices is decided against the same specification polynomial (E-LIN MUL rules), but full reduction (< L, canonical form after inversion chains) and the equivalence of the assembly with the Go code are not", "run-time CPU dispatch (GODEBUG=cpu.avx2=off) beyond the dispatch/twin rules", "the amd64 Keccak assembly"}
 		run.Exhaustive = false
 		cfgs := c.Configs()
 		if !c.Preload(cfgs...) {
@@ -409,6 +409,7 @@ func init() {
 			// both radices implement the same byte<->limb maps (affine identities over the input bits)
 			elin.CheckField(run, p, "LIN")
 			elin.CheckScalarPack(run, p, "LIN")
+			elin.CheckMul(run, p, "MUL") // both radices compute the same polynomial of their inputs (mod p resp. mod L)
 		}
 		sig := run.Rule("SIB-decision", "functions defined in different files per configuration agree on argument checks, outcome classes and written parameters", 20)
 		run.Sample(checkDecisionSignatures(c, sig, cfgs, stubs))
